@@ -58,6 +58,7 @@ const (
 	kfC04InvalidUTF8      = "C04-invalid-utf8-stored"
 	kfC04ParquetNilDeref  = "C04-parquet-import-nil-deref"
 	kfC04MsgpackNilKey    = "C04-msgpack-nil-map-key-panic"
+	kfC04ZeroRowBatch     = "C04-zero-row-batch-poisons-flush"
 )
 
 const c04BaseMicros = int64(1_700_000_000_000_000)
@@ -411,6 +412,25 @@ func (g *c04Gen) msgpackColumnar() *c04Req {
 		items = append(items, item)
 		r.Rows = append(r.Rows, rows...)
 	}
+	zeroRows := rapid.IntRange(0, 15).Draw(t, "zeroRows") == 0
+	if zeroRows && verifkit.Excluded(kfC04ZeroRowBatch) {
+		verifkit.CountExcluded(kfC04ZeroRowBatch)
+		zeroRows = false
+	}
+	if zeroRows {
+		// every column array empty: accepted as a zero-row batch (or rejected) - either
+		// way it must store nothing and must not disturb later requests
+		cols := mpMap{{"v", []any{}}}
+		if rapid.Bool().Draw(t, "zeroRowsTime") {
+			cols = mpMap{{"time", []any{}}, {"v", []any{}}}
+		}
+		items[len(items)-1] = c04Columnar(rapid.SampledFrom(c04Measurements).Draw(t, "zm"), cols)
+		if len(items) == 1 {
+			r.Rows = nil
+		} else {
+			g.unknown = true
+		}
+	}
 	switch shape {
 	case "single":
 		r.Body = mpEncode(nil, items[0])
@@ -419,7 +439,7 @@ func (g *c04Gen) msgpackColumnar() *c04Req {
 	default:
 		r.Body = mpEncode(nil, mpMap{{"batch", items}})
 	}
-	r.Desc = fmt.Sprintf("msgpack %s items=%d badM=%v poison=%v lenMismatch=%v", shape, nitems, badM, poison, lenMismatch)
+	r.Desc = fmt.Sprintf("msgpack %s items=%d badM=%v poison=%v lenMismatch=%v zeroRows=%v", shape, nitems, badM, poison, lenMismatch, zeroRows)
 	if poison || badM || lenMismatch || g.unknown {
 		// a rejection is the only acceptable outcome we can model; if the server
 		// accepts it anyway we only know the row delta
@@ -1485,6 +1505,14 @@ func c04RunSeq(s *c04Seq) *c04Failure {
 				acceptedTotal += r.Delta
 				continue
 			}
+			// Open finding C04-zero-row-batch-poisons-flush: a byte-mutated msgpack body
+			// can decode to all-empty arrays; the buffered zero-row batch then makes the
+			// next FlushAll-based request answer 500 although its own rows are stored.
+			if r.Delta != 0 && resp.Status == 500 && opaqueAccepted && strings.Contains(resp.Body, "no time data in batch") && verifkit.Excluded(kfC04ZeroRowBatch) {
+				verifkit.CountExcluded(kfC04ZeroRowBatch)
+				acceptedTotal += r.Delta
+				continue
+			}
 			if r.Delta != 0 {
 				return &c04Failure{"rejected-request-stored-rows", fmt.Sprintf("request #%d (%s) answered %d %s but appended %d rows to the ingest buffers",
 					i, r.Desc, resp.Status, strings.TrimSpace(resp.Body), r.Delta)}
@@ -1950,4 +1978,216 @@ func TestVerifKF_C04_msgpack_nil_map_key(t *testing.T) {
 		}
 	}
 	verifkit.KnownFinding(kfC04MsgpackNilKey, rep, what)
+}
+
+
+// ---------------------------------------------------------------- directed scenarios
+
+func c04ScenarioValue(typ string, k int) any {
+	switch typ {
+	case "int":
+		return int64(k + 1)
+	case "float":
+		return float64(k) + 0.5
+	case "bool":
+		return k%2 == 0
+	default:
+		return fmt.Sprintf("s%d", k)
+	}
+}
+
+func c04ScenarioWrite(m, typ string, k int) *c04Req {
+	ts := c04BaseMicros + int64(k)
+	v := c04ScenarioValue(typ, k)
+	r := c04MsgpackReq("", c04Columnar(m, mpMap{{"time", []any{ts}}, {"v", []any{v}}}))
+	r.Known = true
+	r.Desc = fmt.Sprintf("msgpack %s{v:%v (%s)}", m, v, typ)
+	r.Rows = []c04Row{{DB: "default", M: m, Cells: map[string]string{"time": "t:" + strconv.FormatInt(ts, 10), "v": duck.Canon(v)}}}
+	return r
+}
+
+// TestVerifC04_ZeroRowBatchThenWrite: a columnar payload whose arrays are all
+// empty (answered 204 today, a rejection would be fine too), followed by an
+// ordinary write to the same measurement - which makes the server flush the
+// zero-row buffer on the schema-change path inside that request - and then the
+// usual end-of-sequence flush. Nothing may crash and the ordinary rows must be
+// stored. (Deterministic; the flush-all-after-zero-rows variant is the open
+// finding C04-zero-row-batch-poisons-flush and has its own reproduction.)
+func TestVerifC04_ZeroRowBatchThenWrite(t *testing.T) {
+	for i, cols := range []mpMap{{{"time", []any{}}, {"v", []any{}}}, {{"v", []any{}}}, {{"time", []any{}}}} {
+		for j, follow := range []string{"msgpack", "lp"} {
+			empty := c04MsgpackReq("", c04Columnar("cpu", cols))
+			empty.Known, empty.Desc = true, fmt.Sprintf("msgpack cpu with %d all-empty column arrays", len(cols))
+			var next *c04Req
+			if follow == "msgpack" {
+				next = c04ScenarioWrite("cpu", "int", 1)
+			} else {
+				ts := c04BaseMicros + 5
+				next = &c04Req{Kind: "lp", Method: "POST", Path: "/write?db=default&precision=us", Body: []byte("cpu v=7i " + strconv.FormatInt(ts, 10)),
+					Known: true, NRows: -1, Desc: "lp cpu v=7i",
+					Rows: []c04Row{{DB: "default", M: "cpu", Cells: map[string]string{"time": "t:" + strconv.FormatInt(ts, 10), "v": "i:7"}}}}
+			}
+			s := &c04Seq{Cfg: c04ServerCfg{MaxBufferSize: 50, MaxBufferAgeMS: 3_600_000, FlushWorkers: 1, ShardCount: 1, MaxPayload: 256 << 10},
+				Reqs: []*c04Req{empty, next, c04ScenarioWrite("mem", "float", 2)}}
+			fail := c04RunSeq(s)
+			verifkit.Eval()
+			verifkit.Class("scenario:zero-row-batch-then-write")
+			verifkit.NonTrivial(fmt.Sprintf("zero-row-then-write/%d/%d", i, j))
+			if fail != nil {
+				verifkit.WriteReplay("c04-sequence", s)
+				t.Fatalf("VERIF-FAIL class=C04/%s\n  %s\nsequence=%v", fail.Class, fail.Detail, s.summary())
+			}
+		}
+	}
+}
+
+// c04WindowScenario drives three accepted writes to ONE measurement with a
+// same-name type change so that the third arrives while the second sits in the
+// storage write of its schema-change flush (shard lock released):
+//   A (v:t1) buffered; B (v:t2) flushes A and blocks in storage.Write (gate);
+//   C (v:t1) is served in that window; the gate is released and B resumes.
+// Afterwards everything is flushed (size trigger -> flush worker, or the admin
+// flush endpoint). Oracle: no crash, no recovered panic, and exactly the accepted
+// rows are stored with their values. The gate makes the window deterministic.
+func c04WindowScenario(t1, t2 string, sizeTrigger bool) (fail *c04Failure, entered bool) {
+	root, err := os.MkdirTemp("", "c04win-*")
+	if err != nil {
+		return &c04Failure{"harness", err.Error()}, false
+	}
+	defer os.RemoveAll(root)
+	cfg := c04ServerCfg{Root: root, MaxBufferSize: 100, MaxBufferAgeMS: 3_600_000, FlushWorkers: 1, ShardCount: 1, MaxPayload: 256 << 10}
+	if sizeTrigger {
+		cfg.MaxBufferSize = 2
+	}
+	child, err := c04AcquireChild(cfg)
+	if err != nil {
+		return &c04Failure{"harness", "start child: " + err.Error()}, false
+	}
+	clean := false
+	defer func() { c04ReleaseChild(child, clean) }()
+
+	var accepted []c04Row
+	step := func(what string, cmd c04Cmd) (c04Resp, *c04Failure) {
+		resp, died, diag := child.do(cmd)
+		if died {
+			return resp, &c04Failure{"process-crash", what + ": the server process died: " + diag}
+		}
+		if se, crashed, cdiag := child.panicSeen(); crashed {
+			return resp, &c04Failure{"process-crash", what + ": the server process died: " + cdiag}
+		} else if se != "" {
+			return resp, &c04Failure{"handler-panic", what + ": panic recovered by the middleware: " + c04PanicHead(se)}
+		}
+		if resp.Err != "" {
+			return resp, &c04Failure{"no-http-response", what + ": " + resp.Err}
+		}
+		return resp, nil
+	}
+	reqCmd := func(op string, r *c04Req) c04Cmd {
+		return c04Cmd{Op: op, Method: r.Method, Path: r.Path, Headers: r.Headers, Body: r.Body}
+	}
+	note := func(r *c04Req, status int) {
+		if status >= 200 && status < 300 {
+			accepted = append(accepted, r.Rows...)
+		}
+	}
+	a, b, c := c04ScenarioWrite("cpu", t1, 0), c04ScenarioWrite("cpu", t2, 1), c04ScenarioWrite("cpu", t1, 2)
+	resp, f := step("A "+a.Desc, reqCmd("req", a))
+	if f != nil {
+		return f, false
+	}
+	note(a, resp.Status)
+	if _, f = step("gate-arm", c04Cmd{Op: "gate-arm"}); f != nil {
+		return f, false
+	}
+	if _, f = step("B "+b.Desc+" (started)", reqCmd("req-async", b)); f != nil {
+		return f, false
+	}
+	w, f := step("gate-wait", c04Cmd{Op: "gate-wait"})
+	if f != nil {
+		return f, false
+	}
+	entered = w.Mode == "entered"
+	resp, f = step("C "+c.Desc+" (inside B's flush window)", reqCmd("req", c))
+	if f != nil {
+		return f, entered
+	}
+	note(c, resp.Status)
+	if entered {
+		if _, f = step("gate-release", c04Cmd{Op: "gate-release"}); f != nil {
+			return f, entered
+		}
+	}
+	resp, f = step("B "+b.Desc+" (resumed)", c04Cmd{Op: "await"})
+	if f != nil {
+		return f, entered
+	}
+	note(b, resp.Status)
+	resp, f = step("admin flush", c04Cmd{Op: "req", Method: "POST", Path: "/api/v1/write/line-protocol/flush"})
+	if f != nil {
+		return f, entered
+	}
+	if resp.Status != 200 {
+		return &c04Failure{"flush-failed", fmt.Sprintf("admin flush answered %d %s", resp.Status, resp.Body)}, entered
+	}
+	if _, f = step("quiesce", c04Cmd{Op: "quiesce"}); f != nil {
+		return f, entered
+	}
+	if _, f = step("close", c04Cmd{Op: "close"}); f != nil {
+		return f, entered
+	}
+	clean = true
+	stored, total, rf := c04ReadStore(root, false)
+	if rf != nil {
+		return rf, entered
+	}
+	want := duck.Multiset{}
+	for _, r := range accepted {
+		want[c04RowKey(r, false)]++
+	}
+	if diff := want.Diff(stored, 6); len(diff) > 0 || total != int64(len(accepted)) {
+		return &c04Failure{"accepted-row-not-stored-as-sent", fmt.Sprintf("%d rows accepted, %d stored; %s", len(accepted), total, strings.Join(diff, "\n  "))}, entered
+	}
+	return nil, entered
+}
+
+func TestVerifC04_SchemaFlushWindow(t *testing.T) {
+	pairs := [][2]string{{"int", "float"}, {"float", "int"}, {"int", "str"}, {"str", "bool"}, {"bool", "float"}}
+	for _, p := range pairs {
+		for _, sizeTrigger := range []bool{true, false} {
+			fail, entered := c04WindowScenario(p[0], p[1], sizeTrigger)
+			verifkit.Eval()
+			verifkit.Class("scenario:schema-flush-window")
+			if entered {
+				verifkit.Class("scenario:window-entered")
+				verifkit.NonTrivial(fmt.Sprintf("window/%s/%s/%v", p[0], p[1], sizeTrigger))
+			}
+			if fail != nil {
+				if fail.Class == "harness" {
+					t.Fatalf("C04 harness problem: %s", fail.Detail)
+				}
+				t.Fatalf("VERIF-FAIL class=C04/%s (scenario: cpu v:%s buffered; v:%s flushing it and blocked in storage.Write; v:%s served in that window; sizeTrigger=%v)\n  %s",
+					fail.Class, p[0], p[1], p[0], sizeTrigger, fail.Detail)
+			}
+		}
+	}
+}
+
+// Minimal input: {m:cpu, columns:{time:[], v:[]}} (204, zero-row batch buffered),
+// then any FlushAll-based request, e.g. a one-row CSV import into another
+// measurement: the import answers 500 ("no time data in batch") although its row
+// is stored.
+func TestVerifKF_C04_zero_row_batch_poisons_flush(t *testing.T) {
+	empty := c04MsgpackReq("", c04Columnar("cpu", mpMap{{"time", []any{}}, {"v", []any{}}}))
+	csvReq := &c04Req{Method: "POST", Path: "/api/v1/import/csv?db=default&measurement=mem&time_format=epoch_us"}
+	c04Multipart(csvReq, "d.csv", []byte("time,v\n"+strconv.FormatInt(c04BaseMicros, 10)+",1\n"))
+	res, err := c04Play(c04ServerCfg{MaxBufferSize: 100}, []*c04Req{empty, csvReq}, true)
+	rep := false
+	what := "msgpack {m:cpu,columns:{time:[],v:[]}} -> 204; next POST /api/v1/import/csv (1 row, measurement mem) -> 500 'no time data in batch' yet its row is stored"
+	if err != nil {
+		t.Logf("play: %v", err)
+	} else if !res.crashed && len(res.statuses) >= 2 {
+		rep = res.statuses[0] == 204 && res.statuses[1] >= 500 && res.deltas[1] == 1 && res.rows == 1
+		t.Logf("statuses=%v deltas=%v rows=%d", res.statuses, res.deltas, res.rows)
+	}
+	verifkit.KnownFinding(kfC04ZeroRowBatch, rep, what)
 }
